@@ -178,11 +178,23 @@ ACK_ARMS = {"PubAck": "retained_removal", "PubRec": "retained_removal", "SubAck"
             "UnsubAck": "retained_removal", "PubComp": "release_removal"}
 
 
-def rule_final_ack(R):
+def rule_fresh(R):
+    """handles are invalidated by the session reset: it has to run whenever the broker reports a fresh session, before the
+    handshake can fail for another reason (shared with C05)"""
+    from .c05 import clause_fresh_reset
+    clause_fresh_reset(R, "invalidate/fresh")
+
+
+def clause_remove_then_report(R, prefix, arms=None):
+    """in each acknowledgement arm the in-flight entry is removed before the reason code is examined (a failing code
+    still ends the exchange: the entry, its arena bytes and its slot are released, the handle completes), and every path
+    that removed an entry goes on to examine the reason code"""
     f = R.f
     hb, sw = outq.inbound_handler(f)
     R.touch(hb)
     for arm, role in sorted(ACK_ARMS.items()):
+        if arms is not None and arm not in arms:
+            continue
         _, entry, blocks = outq.handler_arm(f, arm)
         rem = outq.role_fn(f, role)
         rcalls = [c for c in outq.calls_to(f, hb, rem) if arm_of(hb, sw, c.bb) == [arm]]
@@ -195,7 +207,7 @@ def rule_final_ack(R):
             for q in qs:
                 okq, off, np_ = paths.every_path_passes(hb, entry, q["bb"], via_blocks=[c.bb for c in rcalls])
                 ok = ok and okq
-        R.ob("final-ack/%s/remove-then-report" % arm, ok,
+        R.ob("%s/%s/remove-then-report" % (prefix, arm), ok,
              "in the %s arm the in-flight entry is removed before the reason code is examined, and a failure code is "
              "returned with `?` (the handle is complete and the poll that consumed the ack reports Rejected)" % arm,
              where=hb.line(entry))
@@ -210,15 +222,21 @@ def rule_final_ack(R):
         if any(hb.on_cycle(q["bb"]) for q in qs):
             # SUBACK / UNSUBACK: one reason code per topic, examined in a loop (an empty list has nothing to examine)
             loops = [q["bb"] for q in qs if hb.on_cycle(q["bb"])]
-            R.ob("final-ack/%s/reason-always-checked" % arm, True,
+            R.ob("%s/%s/reason-always-checked" % (prefix, arm), True,
                  "the %s arm examines every reason code of the list in a loop" % arm, where=hb.line(loops[0]), nontrivial=False)
             continue
         for ts in tstarts:
             for lf in paths.explore(hb, ts, lambda x: False, lambda b, bb: bb in qbbs):
                 if lf["kind"] == "return" and not lf["marked"]:
                     okc = False
-        R.ob("final-ack/%s/reason-always-checked" % arm, okc,
+        R.ob("%s/%s/reason-always-checked" % (prefix, arm), okc,
              "every path of the %s arm that removed an entry examines the reason code(s) before returning" % arm, where=hb.line(entry))
+
+
+def rule_final_ack(R):
+    f = R.f
+    hb, sw = outq.inbound_handler(f)
+    clause_remove_then_report(R, "final-ack")
     # a failing PUBREC queues no PUBREL
     qrel = outq.role_fn(f, "queue_release")
     _, entry, blocks = outq.handler_arm(f, "PubRec")
@@ -283,4 +301,5 @@ def run(R):
     R.rule("status", rule_status)
     R.rule("handle", rule_handle)
     R.rule("final-ack", rule_final_ack)
+    R.rule("fresh", rule_fresh)
     R.rule("invalidate", rule_invalidate)
